@@ -641,6 +641,18 @@ def run_c18(run: core.Run, n: int) -> None:
             out = "raise:InvalidWheelFilename:" + ("ext" if "extension" in str(e) else "parts")
         except Exception as e:  # noqa: BLE001
             out = "raise:" + type(e).__name__
+        if out.startswith("ok"):
+            # the answer is a function of the file name alone: the caller may do what it likes with the lists it was
+            # given (seed C18j: an lru_cache on parse_wheel_tags hands every later caller the same, mutable lists)
+            again = parse_wheel_tags(fn)
+            snapshot = tuple(list(x) for x in again)
+            for lst in again:
+                lst.clear()
+                lst.append("mutated")
+            a, b, c = parse_wheel_tags(fn)
+            if (a, b, c) != snapshot:
+                run.fail(core.Failure("wheel-state|" + fn, f"{fn}: parse_wheel_tags answers {(a, b, c)} after a caller changed the lists "
+                                      f"of an earlier answer, {snapshot} before", {"op": "wheelstate", "filename": fn}))
         if fn.isascii():      # (the model lower-cases ASCII letters only; other letters are judged against packaging below)
             run.add(core.Case("wheel", f"w.parse\t{fn}", out))
         n_oracle += 1
@@ -781,6 +793,12 @@ def replay(data: dict) -> bool:
             return True
         return first != again or first != [len(tags) - i for i in range(len(tags))] or \
             list(Platform.parse(name).compatible_tags) + ["any"] != tags
+    if r["op"] == "wheelstate":
+        first = parse_wheel_tags(r["filename"])
+        snapshot = tuple(list(x) for x in first)
+        for lst in first:
+            lst.clear()
+        return tuple(list(x) for x in parse_wheel_tags(r["filename"])) != snapshot
     if r["op"] == "wheel":
         try:
             a, b, c = parse_wheel_tags(r["filename"])
